@@ -243,7 +243,7 @@ func c18Command(c *core.Ctx, k *core.Case) {
 	}
 	// the nested decoder on its own
 	var back uePolicyContainer.UEPolicySectionManagementListContent
-	if err := back.UnmarshalBinary(cloneB(content)); err != nil {
+	if err := thenScribble(back.UnmarshalBinary, content); err != nil {
 		c.Fail(k, "list-unmarshal-error", fmt.Sprintf("UnmarshalBinary(%s): %v", hx(content), err))
 		return
 	}
@@ -316,7 +316,7 @@ func c18Command(c *core.Ctx, k *core.Case) {
 		return
 	}
 	dec := uePolicyContainer.NewUePolDeliverySer()
-	if err := dec.UePolDeliverySerDecode(cloneB(wire)); err != nil {
+	if err := thenScribble(dec.UePolDeliverySerDecode, wire); err != nil {
 		c.Fail(k, "command-decode-error", fmt.Sprintf("own encoding does not decode: %v (%s)", err, hx(wire)))
 		return
 	}
@@ -373,9 +373,9 @@ func c18DeliveryReuse(c *core.Ctx, k *core.Case) {
 		kind := []int{0, 1, 1, 0, 2, 3}[r.Intn(6)]
 		seq = append(seq, kind)
 		w := c18Wire(r, kind)
-		err := rx.UePolDeliverySerDecode(cloneB(w))
+		err := thenScribble(rx.UePolDeliverySerDecode, w)
 		fresh := uePolicyContainer.NewUePolDeliverySer()
-		ferr := fresh.UePolDeliverySerDecode(cloneB(w))
+		ferr := thenScribble(fresh.UePolDeliverySerDecode, w)
 		c.Eval(1)
 		if (err == nil) != (ferr == nil) {
 			c.Fail(k, "delivery-reuse-changes-verdict", fmt.Sprintf("step %d of kinds %v: reused value err=%v, fresh value err=%v (wire %s)", i, seq, err, ferr, hx(w)))
@@ -438,7 +438,7 @@ func c18Reject(c *core.Ctx, k *core.Case) {
 		c.Fail(k, "result-layout", fmt.Sprintf("UEPolicySectionManagementResultContent.MarshalBinary = %s (%v), D.6.3 layout %s", hx(content), err, hx(want)))
 	}
 	var back uePolicyContainer.UEPolicySectionManagementResultContent
-	if err := back.UnmarshalBinary(cloneB(content)); err != nil || len(back) != len(model) {
+	if err := thenScribble(back.UnmarshalBinary, content); err != nil || len(back) != len(model) {
 		c.Fail(k, "result-roundtrip", fmt.Sprintf("UnmarshalBinary(%s): %v, %d subresults want %d", hx(content), err, len(back), len(model)))
 		return
 	}
@@ -474,7 +474,7 @@ func c18Reject(c *core.Ctx, k *core.Case) {
 		return
 	}
 	dec := uePolicyContainer.NewUePolDeliverySer()
-	if err := dec.UePolDeliverySerDecode(cloneB(wire)); err != nil || dec.ManageUEPolicyReject == nil || dec.ManageUEPolicyCommand != nil ||
+	if err := thenScribble(dec.UePolDeliverySerDecode, wire); err != nil || dec.ManageUEPolicyReject == nil || dec.ManageUEPolicyCommand != nil ||
 		dec.ManageUEPolicyReject.PTI.GetPTI() != pti || int(dec.ManageUEPolicyReject.UEPolicySectionManagementResult.GetLen()) != len(content) ||
 		!bytes.Equal(dec.ManageUEPolicyReject.UEPolicySectionManagementResult.GetUEPolicySectionManagementResultContent(), content) {
 		c.Fail(k, "reject-roundtrip", fmt.Sprintf("reject message does not round-trip: %v (wire %s)", err, hx(wire)))
@@ -487,7 +487,7 @@ func c18Reject(c *core.Ctx, k *core.Case) {
 	cm.ManageUEPolicyComplete.PTI.SetPTI(pti)
 	w2, err := cm.UePolDeliverySerEncode()
 	d2 := uePolicyContainer.NewUePolDeliverySer()
-	if err != nil || !bytes.Equal(w2, []byte{pti, uePolicyContainer.MsgTypeManageUEPolicyComplete}) || d2.UePolDeliverySerDecode(cloneB(w2)) != nil || d2.ManageUEPolicyComplete == nil || d2.ManageUEPolicyComplete.PTI.GetPTI() != pti {
+	if err != nil || !bytes.Equal(w2, []byte{pti, uePolicyContainer.MsgTypeManageUEPolicyComplete}) || thenScribble(d2.UePolDeliverySerDecode, w2) != nil || d2.ManageUEPolicyComplete == nil || d2.ManageUEPolicyComplete.PTI.GetPTI() != pti {
 		c.Fail(k, "complete-roundtrip", fmt.Sprintf("complete message: %x %v", w2, err))
 	}
 }
